@@ -27,13 +27,19 @@ ATTR_HOSTS = ([(t, "<%s %%s>x</%s>" % (t, t)) for t in HTML_TAGS + EXT_TAGS] + [
                ("wikiheader", "{|\n! %s | x\n|}\n"), ("wikicaption", "{|\n|+ %s | x\n|-\n| y\n|}\n"),
                ("nested-div", "<div class=\"outer\"><div %s>x</div></div>\n"), ("li-div", "* <div %s>x</div>\n")])
 TAGS_STYLED = ['<div style="display:inline">', '<span style="display:inline">', '<table style="display:inline">',
-               '<ref name=a/>', '<ref name="a">', '<pages from=1 to=2 index=a/>', '<td colspan=2>', '<font color=red>']
+               '<ref name=a/>', '<ref name="a">', '<pages from=1 to=2 index=a/>', '<td colspan=2>', '<font color=red>',
+               # numbers that select an amount of work or exceed a conversion limit
+               '<pages index=a from=1 to=9999999/>', '<pages index=a from=-99999999 to=5/>', '<td colspan=30000000>', '<td rowspan=99999999>',
+               "<imagemap>\nImage:A.png\ncircle 1 2 " + "9" * 5000 + " [[a]]\n</imagemap>", "<imagemap>\nImage:A.png\nrect 1 2 3 4 [[a]]\n</imagemap>",
+               '<gallery perrow=99999999>', '<ol start=99999999999999999999>', '<timeline>a</timeline>', '<hiero>a</hiero>']
 COMMENTS = ["<!--", "-->", "<!-- c -->"]
 MAGIC = ["__TOC__", "__NOTOC__"]
 NSWORDS = ["File:A.png", "Image:A.png", "Category:C", "en:", "Talk:"]
 IMGMODS = ["thumb", "left", "100px", "alt="]
 TEMPLATES = ["{{T}}", "{{T|", "{{#if:", "{{PAGENAME}}"]
-SPECIALS = ["\0", "\x7f", EBAD, LRM, "\U0001F600", "́"]
+SPECIALS = ["\0", "\x7f", EBAD, LRM, "\U0001F600", "́",
+            # strip markers the parser did not issue itself (leaked into wikitext by copy and paste) and one it will issue
+            "\x7fUNIQ-ref-7-0123456789abcdef-QINU\x7f", "\x7fUNIQ-nowiki-0-0123456789abcdef-QINU\x7f", "\x7fUNIQ-math-99-abc-QINU\x7f", "\x7fUNIQ-"]
 
 SIGMA = (PLAIN + LINESTART + INLINE + URLS + ENTITIES + TAGS_OPEN + TAGS_CLOSE + TAGS_SELF + TAGS_STYLED + COMMENTS +
          MAGIC + NSWORDS + IMGMODS + TEMPLATES + SPECIALS)
